@@ -514,6 +514,65 @@ def r11_no_replacing_inserts(ctx, res):
         raise AnalysisError(f'only {n} INSERT statement variants found in wn/_add.py')
 
 
+def r12_ownerless_children_on_own_parents(ctx, res):
+    """a content table without a lexicon_rowid column (tags, pronunciations, adjpositions, syntactic_behaviour_senses,
+    proposed_ilis) is removed with a lexicon only through its parent rows.  Rows the importer writes there must therefore hang
+    on a parent the lexicon being added owns: either the rows are produced from local elements only, or one of the parent
+    look-ups is keyed by the rowid of the lexicon being added.  A row attached to an *external* parent (a form of the base
+    lexicon) stays behind when the extension is removed and disappears when the base is."""
+    from .c01 import computed_bindings
+    table = computed_bindings(ctx)
+    owned = {t for t, cols in ctx.schema.tables.items() if any(col.name == 'lexicon_rowid' for col in cols)}
+    n = 0
+    for t, cols in sorted(ctx.schema.tables.items()):
+        if t in owned or t in LOOKUP_TABLES or t in ('lexicons', 'lexicon_dependencies', 'lexicon_extensions'):
+            continue
+        fks = [fk for fk in ctx.schema.fks if fk.table == t and fk.ref_table in owned]
+        if not fks:
+            continue
+        n += 1
+        key = f'ownerless-child:{t}'
+        rows = table.get((t, '<row produced when>'), [])
+        local_rows = bool(rows) and all(any('_local_' in x for x in alt) for alt in rows)
+        own_parent = any(table.get((t, fk.column)) and all('lexid' in alt for alt in table[(t, fk.column)]) for fk in fks)
+        res.inst(key, 'wn/_add.py', f'parents {[fk.ref_table for fk in fks]}; local rows: {local_rows}; parent keyed by own lexicon: {own_parent}')
+        if not (local_rows or own_parent):
+            res.find(key, 'wn/_add.py', f'rows of {t} (no lexicon_rowid column) are attached through {[f"{fk.column}->{fk.ref_table}" for fk in fks]} to '
+                                        f'parents looked up with the id map of the extension (external elements of the base lexicon included): '
+                                        f'what an extension adds there survives remove(extension) and is deleted with the base')
+    if n < 4:
+        raise AnalysisError(f'only {n} ownerless child tables found in the schema')
+
+
+def r13_lexicon_lookups_by_id_and_version(ctx, res):
+    """a lexicon is identified by id AND version (several versions of one id can be installed): every statement of the importer
+    that looks a lexicon row up by its id also constrains the version - the base of an extension resolved by id alone is the
+    first installed version, and the extension's external ids are mapped to the wrong lexicon's rows."""
+    n = 0
+    for s in ctx.sites:
+        if s.func.module.short != '_add':
+            continue
+        for v in s.variants:
+            st = v.stmt
+            if st is None:
+                continue
+            sql = ' '.join(v.sql.split())
+            low = sql.lower()
+            # sub-selects and selects on lexicons that filter by id
+            for m in __import__('re').finditer(r'from lexicons(?: as (\w+))?\s+where (.*?)(?:\)|$| order | limit )', low):
+                cond = m.group(2)
+                if not __import__('re').search(r'(?<![\w.])(?:\w+\.)?id\s*(=|is|glob|like)', cond):
+                    continue
+                n += 1
+                key = f'lexicon-lookup:{s.func.key}:{cond[:40]}'
+                res.inst(key, s.loc, cond[:80])
+                if not __import__('re').search(r'(?<![\w.])(?:\w+\.)?version\s*(=|is|glob|like)', cond):
+                    res.find(key, s.loc, f'{s.func.qualname} looks a lexicon up with `{cond[:80]}` - by id without the version: with two installed '
+                                         f'versions the first one is taken')
+    if n < 2:
+        raise AnalysisError(f'only {n} lexicon look-ups by id found in wn/_add.py')
+
+
 RULES = [
     ('C05-R1', r1_cascade_closure, 40),
     ('C05-R2', r2_fk_enforcement, 3),
@@ -526,4 +585,6 @@ RULES = [
     ('C05-R9', r9_selection_materialised, 3),
     ('C05-R10', r10_lookup_tables_complete, 3),
     ('C05-R11', r11_no_replacing_inserts, 25),
+    ('C05-R12', r12_ownerless_children_on_own_parents, 4),
+    ('C05-R13', r13_lexicon_lookups_by_id_and_version, 2),
 ]
